@@ -206,6 +206,15 @@ func (c02) RunCase(c *fw.Ctx, rng *fw.RNG, batch, i int) {
 				c.Deviate("C02:encodedlength-mismatch", fmt.Sprintf("%s: EncodedLength=%d but Encode wrote %d bytes", label, l, buf.Len()))
 			}
 		}
+		// the encoding is a function of the value: encoding the SAME node again gives the same bytes
+		// (an encoder that scribbles into the node it walks shows on the second pass)
+		var buf2 bytes.Buffer
+		if !c.Guard("C02:encode-again", func() { err = dagcbor.Encode(n, &buf2) }) {
+			c.Count("encodes", 1)
+			if err != nil || !bytes.Equal(buf2.Bytes(), want) {
+				c.Deviate("C02:second-encode-differs", fmt.Sprintf("%s: a second Encode of the same node produced %s (err %v)\n canonical form is  %s", label, hexClip(buf2.Bytes()), err, hexClip(want)))
+			}
+		}
 	}
 
 	var variants []model.Val
